@@ -104,10 +104,10 @@ def within (d p : Path) : Bool := d.isPrefixOf p
 /-- `os.RemoveAll`: the entry and everything below it; a missing path is not an error -/
 def removeAll (fs : FS) (d : Path) : FS := fs.filter (fun e => !within d e.1)
 
-/-- `os.Stat` fails with something other than "does not exist" when a proper prefix of the path is a
-    regular file (ENOTDIR) -/
-def statErr (fs : FS) (p : Path) : Bool :=
-  fs.any (fun e => e.2.isFile && within e.1 p && e.1 != p)
+/-- `os.Stat` failing with something other than "the path is not there".  When a proper prefix of the path
+    is a regular file the kernel answers ENOTDIR; since the repair 85950c0 `App.clean` treats that like
+    "does not exist" (`notThere`), so no modelled stat failure is an error any more. -/
+def statErr (_fs : FS) (_p : Path) : Bool := false
 
 /-! ## the spokfile as `--clean` sees it -/
 
@@ -157,7 +157,7 @@ def globTargets (sf : SpokFile) (cwd : Str) (g : GlobOut) : List Str :=
 
 def fileTarget (sf : SpokFile) (cwd : Str) (lit : Str) : Str := abs cwd (join [sf.dir, lit])
 
-/-- resolve, then `os.Stat` (only a "not a directory" kind of failure is an error) -/
+/-- resolve, then `os.Stat` (a missing path, or one below a regular file, is not an error) -/
 def statted (fs : FS) (p : Str) : Except Err Str :=
   if statErr fs (pathOf p) then .error (.stat p) else .ok p
 
